@@ -462,12 +462,14 @@ fn run_case(c: &Case, full: bool, out: &mut String) {
             let mut wb = w.borrow_mut();
             wb.ev.clear();
             wb.xfers_in_op = 0;
+            wb.polls = 0;
             wb.fault_at = match c.fault {
                 Some((oi, k)) if oi == i => Some(k),
                 _ => None,
             };
         }
         let dc0 = w.borrow().dc;
+        let mut spun = false;
         let res: Result<R, ()> = if t[0] == "new" {
             let rr = catch_unwind(AssertUnwindSafe(|| make(&c.panel, &mut spi, &w, &mut delay, c.delay)));
             match rr {
@@ -479,18 +481,25 @@ fn run_case(c: &Case, full: bool, out: &mut String) {
                     drv = None;
                     Ok(R::Err)
                 }
-                Err(_) => {
+                Err(e) => {
                     drv = None;
+                    spun = e.is::<Spin>();
                     Err(())
                 }
             }
         } else if let Some(d) = drv.as_mut() {
-            catch_unwind(AssertUnwindSafe(|| d.op(&mut spi, &mut delay, &mut arena, t))).map_err(|_| ())
+            catch_unwind(AssertUnwindSafe(|| d.op(&mut spi, &mut delay, &mut arena, t))).map_err(|e| {
+                spun = e.is::<Spin>();
+            })
         } else {
             Ok(R::Unsupported)
         };
         arena.end_call(c.scribble);
         out.push_str(&format!("op {} {}\n", i, t[0]));
+        if spun {
+            out.push_str("= DIVERGED\n");
+            break;
+        }
         {
             // dc at op start is needed to classify transfers; recompute from saved value
             let wb = w.borrow();
